@@ -361,7 +361,11 @@ func (b *wb) attestations(id int, holder int, force int) []int {
 	case 4: // re-delegated: authority -> worker (any proof) -> attests
 		wk := b.keyPrincipal(w.AuthorityKey)
 		var pnb [][2]int
-		switch r.Intn(3) {
+		pick := r.Intn(3)
+		if force == 4 {
+			pick = r.Intn(2) // when the variant is asked for, the worker's grant covers this proof
+		}
+		switch pick {
 		case 0:
 			pnb = [][2]int{}
 		case 1:
@@ -391,7 +395,7 @@ func (b *wb) attestations(id int, holder int, force int) []int {
 
 const specialBase = 1000 // caveat values 1000.. are written as empty list, empty map, empty string, false, {a:1}, {a:1,b:2}, {b:2}
 
-var defectKinds = []string{"nearmiss", "twincap", "tamper-wrapped", "didurl", "case", "none", "wrongkey", "tamper", "aud", "resource", "ability", "nonowner", "expired", "tooearly", "algcode", "revoke", "missing", "policy", "decoys", "permute", "nbf-ok", "dup", "parsefail", "deadend"}
+var defectKinds = []string{"nearmiss", "twincap", "tamper-wrapped", "didurl", "case", "misaligned2", "none", "wrongkey", "tamper", "aud", "resource", "ability", "nonowner", "expired", "tooearly", "algcode", "revoke", "missing", "policy", "decoys", "permute", "nbf-ok", "dup", "parsefail", "deadend"}
 
 func applyDefect(r *rand.Rand, w *AWorld, kind string) {
 	n := len(w.Tokens)
@@ -568,6 +572,38 @@ func applyDefect(r *rand.Rand, w *AWorld, kind string) {
 		addDecoys(r, w)
 	case "deadend":
 		addDeadEnd(r, w)
+	case "misaligned2":
+		// two (or three) copies of a real proof addressed to somebody else, cited next to it: none of them
+		// may stand in for a proof delegated to the citing token's issuer
+		var hosts []int
+		for i := range w.Tokens {
+			if len(w.Tokens[i].Prfs) > 0 {
+				hosts = append(hosts, i)
+			}
+		}
+		if len(hosts) > 0 {
+			h := hosts[r.Intn(len(hosts))]
+			real := w.Tokens[h].Prfs[r.Intn(len(w.Tokens[h].Prfs))]
+			if real >= 0 && real < len(w.Tokens) {
+				// the real proof itself becomes misaddressed in half of the cases: then no chain exists
+				if r.Intn(2) == 0 {
+					w.Tokens[real].Aud = b.keyPrincipal(w.Tokens[real].Aud, w.Tokens[h].Iss)
+				}
+				for k := 2 + r.Intn(2); k > 0; k-- {
+					c := w.Tokens[real]
+					c.Caps = append([]ACap(nil), c.Caps...)
+					c.Prfs = append([]int(nil), c.Prfs...)
+					c.Inline = append([]bool(nil), c.Inline...)
+					c.Aud = b.keyPrincipal(w.Tokens[h].Iss)
+					c.Nonce = fmt.Sprintf("mis%d", k)
+					id := b.addToken(c)
+					ht := &w.Tokens[h]
+					ht.Prfs = append(ht.Prfs, id)
+					ht.Inline = append(ht.Inline, true)
+				}
+				renumber(w)
+			}
+		}
 	case "deadend-revoke":
 		// a dead end in front of a proof, and something of the world revoked (often the proof behind it)
 		addDeadEnd(r, w)
